@@ -14,6 +14,11 @@ fn main() {
         // child mode for syscall-level fault injection (C23): run the real, unhooked generator and exit
         std::process::exit(vf_harness::faults::child_generate(args.get(2).map(|s| s.as_str()).unwrap_or("")));
     }
+    if args[1] == "judge-private" {
+        // replay helper: `vf judge-private <replay.json>` re-judges the supplied private-batch vector of a C06-C09/C14 replay
+        // file with the reference model and the constraint oracle on the wrapper-only circuit, several times
+        std::process::exit(vf_harness::provers::judge_private_replay(args.get(2).map(|s| s.as_str()).unwrap_or("")));
+    }
     let prop = args[1].clone();
     let mut tier = match std::env::var("VERIF_TIER").ok().as_deref() {
         Some("thorough") => Tier::Thorough,
